@@ -711,6 +711,9 @@ pub fn run_case(out: &mut Out, seed: u64, shard: u64, case: u64, record: bool) -
         if record {
             count_kinds(rep, &events);
             out.hangs.push((shard, case, format!("{kind}|{m}")));
+            if out.notes.len() < 6 {
+                out.notes.push(h.witness.clone());
+            }
         }
         return Some(h);
     }
@@ -731,6 +734,12 @@ pub fn run_case(out: &mut Out, seed: u64, shard: u64, case: u64, record: bool) -
     }
     if !quiescent {
         rep.inconclusive("c17-handlers-not-ended-watchdog");
+        if record {
+            if out.notes.len() < 6 {
+                out.notes.push(json!({"ident": ident, "what": "handlers not ended 15 s after every client left",
+                                      "history": history_json(&events, 400)}));
+            }
+        }
     }
     let idx = index(&events);
     let call = events.iter().find(|e| e.kind == "S_CLOSE_CALL").map(|e| e.seq).unwrap();
@@ -1009,6 +1018,7 @@ pub fn finish(out: &mut Out, seed: u64) {
             _ => out.rep.inconclusive(&format!("c17-{kind}-watchdog")),
         }
     }
+    out.flush_notes();
     let mut by: BTreeMap<String, u64> = BTreeMap::new();
     for s in &out.inter {
         let key: Vec<&str> = s.split('|').take(2).collect();
